@@ -1,4 +1,4 @@
-import EmsModel.Core.Cli
+import EmsModel.Core.CliSpec
 import EmsModel.Core.Proto
 import EmsModel.Gen.Tables
 /-! Line-protocol driver for C20.  Text arguments travel as decimal code points joined by
@@ -36,7 +36,17 @@ def showText (cs : List Char) : String :=
 
 def showPt (p : Rat × Rat) : String := s!"{showRat (toDouble p.1)},{showRat (toDouble p.2)}"
 
-def showBox (b : Bounds) : String := "BOX " ++ joinWith ";" ((boxRing b).map showPt)
+def ptLe (p q : Rat × Rat) : Bool := decide (p.1 < q.1) || (decide (p.1 = q.1) && decide (p.2 ≤ q.2))
+
+/-- a proper box: its ring; a box that collapses to a segment or a point once the numbers are
+binary64 (GEOS then drops repeated vertices): the sorted distinct corners -/
+def showBox (b : Bounds) : String :=
+  let ring := (boxRing b).map fun p => (toDouble p.1, toDouble p.2)
+  let (x0, y0, x1, y1) := b
+  let show2 := fun (p : Rat × Rat) => s!"{showRat p.1},{showRat p.2}"
+  if toDouble x0 = toDouble x1 ∨ toDouble y0 = toDouble y1 then
+    "BOXD " ++ joinWith ";" (((ring.mergeSort ptLe).eraseDups).map show2)
+  else "BOX " ++ joinWith ";" (ring.map show2)
 
 def showUsage : UsageError → String
   | .notBounds => "ERR:not-bounds"
@@ -191,7 +201,7 @@ def step (line : String) : String :=
     match parseText? t with
     | some s => propcheck s
     | none => "BAD"
-  | ["pattern"] => Ems.Gen.boundsRe
+  | ["pattern"] => s!"{boundsAst.pattern} flags={boundsFlags}"
   | _ => "BAD"
 
 def main : IO Unit := loop step
